@@ -1,4 +1,5 @@
 H("c06_conc", "C06", "sched", ["harness/c06_conc.cc"], sdk=["common", "version", "resource", "metrics"],
   what="Engine A: recorder threads racing collector threads on the real MeterProvider/Meter/SyncMetricStorage/TemporalMetricStorage with delta and cumulative pull readers; "
-       "power-of-two values make every point identify the measurements it contains (partition for delta, running superset for cumulative)",
+       "power-of-two values make every point identify the measurements it contains (partition for delta, running superset for cumulative); uint64 and double counters, with and without attributes "
+       "(all four SyncMetricStorage::Record* bodies)",
   design_ref="5/C06")
